@@ -983,6 +983,11 @@ impl World {
     /// classic liquidation: liquidator account `lq` seizes `amount` of asset bank `ab` from `le`,
     /// taking on debt in `lb`.
     pub fn ix_liquidate(&self, lq: usize, le: usize, ab: usize, lb: usize, signer: Pubkey, amount: u64) -> Instruction {
+        self.ix_liquidate_x(lq, le, ab, lb, signer, amount, None)
+    }
+    /// `dup`: a hostile caller names that bank twice (adjacent) among the liquidator's observation
+    /// accounts - what it would have to do if its account held two positions in one bank.
+    pub fn ix_liquidate_x(&self, lq: usize, le: usize, ab: usize, lb: usize, signer: Pubkey, amount: u64, dup: Option<usize>) -> Instruction {
         let g = self.groups[self.accts[lq].group].key;
         let mut rem = self.mint_prefix(lb);
         for k in self.banks[ab].oracle.accounts() {
@@ -1012,6 +1017,15 @@ impl World {
                     if let Some(bi) = self.bank_by_key(&kk) {
                         lq_acc.extend(self.bank_risk_metas(bi));
                     }
+                }
+            }
+        }
+        if let Some(d) = dup {
+            let dk = self.banks[d].key;
+            if let Some(pos) = lq_acc.iter().position(|m| m.pubkey == dk) {
+                let extra = self.bank_risk_metas(d);
+                for (j, e) in extra.into_iter().enumerate() {
+                    lq_acc.insert(pos + j, e);
                 }
             }
         }
